@@ -462,7 +462,7 @@ func c08AllOrNothing(c *core.Ctx, la *lockAnalysis) {
 					if !ok || len(r.Results) == 0 {
 						return false
 					}
-					return !facts.IsNilConst(facts.Resolve(r.Results[len(r.Results)-1]))
+					return !facts.RetErrIsNil(r)
 				}
 				at, reach := facts.ReachesWithout(in, failing, nil, nil)
 				if reach {
